@@ -55,6 +55,7 @@ func c10(c *Ctx) {
 	r.Decides("every processor appended to the LSR/LS candidate pools is outside the node-reserved and system-exclusive CPU sets, and the LS pool excludes LSE-owned CPUs; calcBECPUSet feeds all three exclusion sources into its filter")
 	r.Decides("the CPU list applied to the BE cgroups derives only from calculateBESuppressCPUSetPolicy over those pools")
 	r.Decides("the budget is only ever decreased by the three consumption terms (Sub, never Add) and replaced only by the configured minimum under a '<' test; the CFS quota derived from the budget passes through max(., beMinQuota)")
+	r.Decides("every CPU id appended by the suppress policy is marked used in the same step and counted; no slice in cpusuppress/cpuset/helpers is created with a non-zero length and then filled by append only")
 	r.Declines("the numeric value of the budget, the exact number and distinctness of the chosen CPUs, the step limit arithmetic")
 
 	// ---- DIV
